@@ -94,6 +94,9 @@ Inductive case :=
                   DSMatchedKeys(keyMap, set, nil) as its non-empty buckets by ascending tag; refm: the keys of each bucket
                   for which the library's ToDS / KeyTag reproduce a supported DS of the set *)
                (code : N) (matched refm : list (N * list dnskey))
+  (* VerifyDS on a DS set outside the property's domain (an owner that is not fully qualified cannot come out of
+     the wire decoder): the walk model is checked, nothing is judged — the witness of ds_order_needs_fqdn_owners *)
+| CaseDSProbe (keymap : list (N * list dnskey)) (dss : list ds) (t : list oracle) (unsupported_only : bool) (code : N)
   (* verifyOneSig(keys, set, sig) == nil; ref: some key of the list verifies under the library / math/big *)
 | CaseOneSig (keys : list (N * list dnskey)) (set : list rr) (s : rrsig) (valid_now : bool)
              (t : list oracle) (ecp : list (list N * bool)) (ev : list (list N * list N * bool))
@@ -179,6 +182,8 @@ Definition check_case (c : case) : bool :=
       bb_eqb (verify_ds (tbl_H t) keymap dss) got
       && (let r := verify_ds_code (tbl_H t) keymap dss in Bool.eqb (fst r) (fst got) && (snd r =? code))
       && km_eqb (ds_matched_keys (tbl_H t) keymap dss) matched
+  | CaseDSProbe keymap dss t u code =>
+      let r := verify_ds_code (tbl_H t) keymap dss in Bool.eqb (fst r) u && (snd r =? code)
   | CaseOneSig keys set s valid_now t ecp ev got _ _ =>
       Bool.eqb (verify_one_sig_pm powmod_fast (tbl_H t) (tbl_ECP ecp) (fun _ pub dg sg => negb (is_nil dg) && tbl_EV ev pub sg)
                                (fun pub msg sg => existsb (fun o => list_eqb msg (o_msg o)) t && tbl_EV ev pub sg)
@@ -343,6 +348,7 @@ Definition spec_case (c : case) : bool :=
       && (code <=? 3) && Bool.eqb (code =? 0) (snd got) && Bool.eqb (code =? 3) (fst got)
       (* DSMatchedKeys returns exactly the keys the reference vouches for, and some key exactly when VerifyDS succeeds *)
       && km_same_sets matched refm && Bool.eqb (negb (is_nil matched)) (snd got)
+  | CaseDSProbe _ _ _ _ _ => true
   | CaseOneSig _ _ _ _ _ _ _ got ref eqdom =>
       implb' got ref && implb' eqdom (Bool.eqb got ref)
   | CaseMsg _ _ _ _ _ _ _ got ref eqdom =>
